@@ -17,9 +17,10 @@ import (
 // C06 — ReadPacket consumes exactly one frame from the stream.
 
 type caseC06 struct {
-	Frames   []Hex `json:"frames"`
-	Trailing Hex   `json:"trailing,omitempty"`
-	Bytewise bool  `json:"bytewise,omitempty"` // deliver the stream one byte per Read
+	Frames   []Hex  `json:"frames"`
+	Trailing Hex    `json:"trailing,omitempty"`
+	Bytewise bool   `json:"bytewise,omitempty"` // deliver the stream one byte per Read
+	Reader   string `json:"reader,omitempty"`   // concrete reader type: script (default), bytes.Reader, bytes.Buffer, bufio16, bufio4096
 }
 
 func checkC06(c caseC06) (sig, msg string) {
@@ -35,6 +36,7 @@ func checkC06(c caseC06) (sig, msg string) {
 			sr.Steps[i].N = 1
 		}
 	}
+	rd, consumed := wrappedStream(c.Reader, sr)
 	want := 0
 	for i, f := range c.Frames {
 		total, _, err := ref.FrameLen(f)
@@ -42,22 +44,22 @@ func checkC06(c caseC06) (sig, msg string) {
 			return "harness", fmt.Sprintf("harness: frame %d is not a complete frame: %s", i, hx(f))
 		}
 		alone := contiguous(f)
-		got := readScripted(sr, len(f), func() interface{} {
+		got := readFrom(rd, len(f), func() interface{} {
 			return vf.Failure{Property: "C06", Kind: "hang", Case: mustJSON(c), Signature: "hang"}
 		})
 		want += total
 		if got.Panic != nil {
 			return "panic", fmt.Sprintf("call %d panicked: %v", i, got.Panic.Value)
 		}
-		if sr.Consumed() != want {
-			return "consumed", fmt.Sprintf("after call %d (frame %s, accepted=%v) the reader has handed out %d bytes, the frames so far are %d bytes long", i, hx(f), got.OK, sr.Consumed(), want)
+		if consumed() != want {
+			return "consumed", fmt.Sprintf("after call %d (frame %s, accepted=%v) %d bytes were taken from the stream (%s reader), the frames so far are %d bytes long", i, hx(f), got.OK, consumed(), c.Reader, want)
 		}
 		if d := sameResult(alone, got); d != "" {
 			return "result-depends-on-neighbours", fmt.Sprintf("call %d on frame %s differs from reading that frame alone: %s", i, hx(f), d)
 		}
 	}
 	if len(c.Trailing) == 0 {
-		got := readScripted(sr, 16, func() interface{} {
+		got := readFrom(rd, 16, func() interface{} {
 			return vf.Failure{Property: "C06", Kind: "hang", Case: mustJSON(c), Signature: "hang"}
 		})
 		if got.OK || got.Err == nil || !errors.Is(got.Err, io.EOF) {
@@ -101,6 +103,7 @@ func TestC06(t *testing.T) {
 			c.Trailing = rapid.SliceOfN(rapid.Byte(), 1, 12).Draw(t, "trailingbytes")
 		}
 		c.Bytewise = rapid.IntRange(0, 3).Draw(t, "bytewise") == 0
+		c.Reader = rapid.SampledFrom(wrapKinds).Draw(t, "reader")
 		for _, k := range kinds {
 			if k == "valid-large" {
 				c.Bytewise = false // millions of one-byte reads add time, not coverage
@@ -120,12 +123,13 @@ func TestC06(t *testing.T) {
 		if len(c.Trailing) > 0 {
 			class += "/trailing"
 		}
+		class += "/" + c.Reader
 		var stream []byte
 		for _, f := range c.Frames {
 			stream = append(stream, f...)
 		}
-		r.Case(vf.FPs(string(stream), string(c.Trailing), fmt.Sprint(c.Bytewise)), nt, class, func() interface{} {
-			s := caseC06{Trailing: c.Trailing, Bytewise: c.Bytewise}
+		r.Case(vf.FPs(string(stream), string(c.Trailing), fmt.Sprint(c.Bytewise), c.Reader), nt, class, func() interface{} {
+			s := caseC06{Trailing: c.Trailing, Bytewise: c.Bytewise, Reader: c.Reader}
 			for _, f := range c.Frames {
 				if len(f) > 48 {
 					f = f[:48]
